@@ -417,7 +417,8 @@ def main(tier: str, only=None) -> int:
     with cf.ProcessPoolExecutor(max_workers=common.jobs()) as ex:
         traces = list(ex.map(_trace_worker, [(common.seed(), i) for i in range(n)], chunksize=4))
         calls = []
-        for fname, kws in (("scale_shift", [{}, {"alpha": 0.5}, {"k": -3}, {"alpha": -1.0, "k": 2}]), ("two_out", [{}]), ("branchy", [{}, {"flip": 1}])):
+        for fname, kws in (("scale_shift", [{}, {"alpha": 0.5}, {"k": -3}, {"alpha": -1.0, "k": 2}, {"alpha": 0.0}, {"k": 0}, {"alpha": 0.0, "k": 0}]),
+                            ("two_out", [{}]), ("branchy", [{}, {"flip": 1}, {"flip": 0}])):
             for kw in kws:
                 for lits in ((1.0, 2.0), (0, 0.5), (-0.0, 1)):
                     calls.append((fname, kw, lits))
@@ -458,6 +459,9 @@ def main(tier: str, only=None) -> int:
                     run.harness_error(f"{label}: call/call_inline counterexample does not reproduce: {r['detail']}")
         elif r["verdict"] == "unknown":
             run.note_inconclusive(f"{label}: solver unknown")
+        elif r["verdict"] == "not_encoded" and "call" in r:
+            # every call host is meant to be decidable: an unencoded one hides whatever it would have shown
+            run.note_inconclusive(f"{label}: not encoded ({r.get('detail')})")
     checked, problems = module_trees(common.seed(), 60 if tier == "quick" else 1000)
     for p in problems:
         report("module_tree", "naming", p)
